@@ -551,30 +551,209 @@ func singleStoreLoose(a *ssa.Alloc) ssa.Value {
 // c20SetGuarded: every SetLevel call in fn is dominated by `<err of a parse call> == nil`.
 func c20SetGuarded(c *Ctx, rule string, fn *ssa.Function) {
 	name := fn.String()
-	n := 0
-	for _, cl := range CallsDeep(fn) {
-		if !IsCallTo(cl, "(go.uber.org/zap.AtomicLevel).SetLevel") {
-			// building the result directly at the parsed level is the same installation
-			if !IsCallTo(cl, "go.uber.org/zap.NewAtomicLevelAt") {
+	// by path exploration (zap's own helpers inline, the zapcore text parsers opaque and forked into success/failure):
+	// the atomic level is overwritten only after the parse succeeded, with exactly the parsed level, and then nil is
+	// returned; a failed parse stores nothing and returns the error
+	isParser := func(cl *ssa.Call) bool {
+		return IsCallTo(cl, "go.uber.org/zap/zapcore.ParseLevel", "(*go.uber.org/zap/zapcore.Level).UnmarshalText", "(*go.uber.org/zap/zapcore.Level).Set", "(*go.uber.org/zap/zapcore.Level).unmarshalText")
+	}
+	resolve := func(st *ConcState, v ssa.Value) ssa.Value {
+		for k := 0; k < 16; k++ {
+			switch x := v.(type) {
+			case *ssa.ChangeType:
+				v = x.X
+				continue
+			case *ssa.Convert:
+				v = x.X
 				continue
 			}
-			if _, isConst := ConstInt(Args(cl)[0]); isConst {
-				continue
+			nx := st.Step(v)
+			if nx == nil {
+				break
+			}
+			v = nx
+		}
+		return v
+	}
+	isParsed := func(st *ConcState, v ssa.Value) bool {
+		r := resolve(st, v)
+		switch x := r.(type) {
+		case *ssa.Extract:
+			cl, ok := x.Tuple.(*ssa.Call)
+			return ok && x.Index == 0 && isParser(cl)
+		case *ssa.UnOp:
+			// the variable the parser filled in: var l Level; l.UnmarshalText(text)
+			if al, ok := x.X.(*ssa.Alloc); ok && x.Op == token.MUL && al.Referrers() != nil {
+				for _, ref := range *al.Referrers() {
+					if cl, ok := ref.(*ssa.Call); ok && isParser(cl) && len(cl.Call.Args) > 0 && cl.Call.Args[0] == ssa.Value(al) {
+						return true
+					}
+				}
 			}
 		}
-		n++
-		atoms := AtomStrings(Guards(cl))
-		ok := false
-		for _, a := range atoms {
-			if c20ParseOK(a) {
-				ok = true
+		return false
+	}
+	var recv *ssa.Parameter
+	if fn.Signature.Recv() != nil && len(fn.Params) > 0 {
+		if _, isPtr := fn.Params[0].Type().(*types.Pointer); isPtr {
+			recv = fn.Params[0]
+		}
+	}
+	seqs, trunc := ConcPaths(fn, ConcCfg{
+		Branch: func(cond ssa.Value, taken bool, st *ConcState) string {
+			pol := taken
+			for k := 0; k < 8; k++ {
+				if u, ok := cond.(*ssa.UnOp); ok && u.Op == token.NOT {
+					cond, pol = u.X, !pol
+					continue
+				}
+				if nx := st.Step(cond); nx != nil {
+					cond = nx
+					continue
+				}
+				break
+			}
+			bo, ok := cond.(*ssa.BinOp)
+			if !ok || recv == nil || !IsNilConst(bo.Y) || (bo.Op != token.EQL && bo.Op != token.NEQ) {
+				return ""
+			}
+			if u, ok := resolve(st, bo.X).(*ssa.UnOp); ok && u.Op == token.MUL {
+				if fa, ok := u.X.(*ssa.FieldAddr); ok && resolve(st, fa.X) == ssa.Value(recv) {
+					if pol == (bo.Op == token.EQL) {
+						return "unset=T"
+					}
+					return "unset=F"
+				}
+			}
+			return ""
+		},
+		Inline:    func(h *ssa.Function) bool { return h.Pkg != nil && h.Pkg.Pkg.Path() == ZapPath },
+		InlineAny: func(h *ssa.Function) bool { return h.Pkg != nil && h.Pkg.Pkg.Path() == ZapPath },
+		Fork: func(in ssa.Instruction, st *ConcState) []ConcAlt {
+			var v ssa.Value
+			switch x := in.(type) {
+			case *ssa.Call:
+				if _, isTuple := x.Type().(*types.Tuple); !isTuple && isParser(x) {
+					v = x
+				}
+			case *ssa.Extract:
+				if cl, ok := x.Tuple.(*ssa.Call); ok && isParser(cl) && x.Index == cl.Type().(*types.Tuple).Len()-1 {
+					v = x
+				}
+			}
+			if v == nil {
+				return nil
+			}
+			return []ConcAlt{{Ev: "parse-ok", Nils: map[ssa.Value]bool{v: true}}, {Ev: "parse-fail", Nils: map[ssa.Value]bool{v: false}}}
+		},
+		Event: func(in ssa.Instruction, st *ConcState) string {
+			switch x := in.(type) {
+			case *ssa.Store:
+				// the receiver's shared cell is replaced (copies of the AtomicLevel made before stop following it)
+				if recv != nil {
+					a := resolve(st, x.Addr)
+					if a == ssa.Value(recv) {
+						return "repoint"
+					}
+					if fa, ok := a.(*ssa.FieldAddr); ok && resolve(st, fa.X) == ssa.Value(recv) {
+						return "repoint"
+					}
+				}
+			case *ssa.Call:
+				if IsCallTo(x, "(*sync/atomic.Int32).Store") {
+					v := Args(x)[1]
+					where := ""
+					switch resolve(st, Args(x)[0]).(type) {
+					case *ssa.Alloc:
+						where = "fresh,"
+					}
+					if isParsed(st, v) {
+						return "store(" + where + "parsed)"
+					}
+					if k, ok := st.Int(v); ok {
+						return "store(" + where + "const " + itoa(int(k)) + ")"
+					}
+					return "store(" + where + st.Desc(v) + ")"
+				}
+				if IsCallTo(x, "(*sync/atomic.Int32).Swap", "(*sync/atomic.Int32).CompareAndSwap", "(*sync/atomic.Int32).Add") {
+					return "store(" + CalleeFunc(x).Name() + ")"
+				}
+			case *ssa.Return:
+				if len(x.Results) == 0 {
+					return "ret"
+				}
+				n, known := st.IsNil(x.Results[len(x.Results)-1])
+				switch {
+				case !known:
+					return "ret-?"
+				case n:
+					return "ret-nil"
+				}
+				return "ret-err"
+			}
+			return ""
+		},
+	})
+	if trunc || len(seqs) == 0 {
+		c.Und(rule, name, "set-only-after-successful-parse", fn.Pos(), "path exploration incomplete (%d sequences)", len(seqs))
+		return
+	}
+	var bad []string
+	nOK := 0
+	for _, sq := range seqs {
+		toks := strings.Split(sq, " ; ")
+		parsed, failed, stores, early, repointed := false, false, 0, false, false
+		unset := 0
+		lastStore := ""
+		for _, t := range toks {
+			switch {
+			case t == "parse-ok":
+				parsed = true
+			case t == "parse-fail":
+				failed = true
+			case t == "unset=T":
+				unset = 1
+			case t == "unset=F":
+				unset = -1
+			case t == "repoint":
+				if unset != 1 {
+					repointed = true
+				}
+			case strings.HasPrefix(t, "store(fresh,const "):
+				// initialising a level made in this call
+				lastStore = t
+			case strings.HasPrefix(t, "store(const ") && !parsed && !failed:
+				// initialising before parsing
+				lastStore = t
+			case strings.HasPrefix(t, "store("):
+				lastStore = t
+				if !strings.HasSuffix(t, "parsed)") || !parsed {
+					early = true
+				}
+				stores++
 			}
 		}
-		c.Check(ok, rule, name, "set-only-after-successful-parse#"+itoa(n), cl.Pos(), "SetLevel is reached only when the parse returned a nil error (guards %v); otherwise rejected text would still overwrite the level", atoms)
+		last := toks[len(toks)-1]
+		if parsed && !failed && stores == 1 && !strings.HasSuffix(lastStore, "parsed)") {
+			early = true // the parsed level is overwritten again before returning
+		}
+		switch {
+		case repointed:
+			bad = append(bad, "the receiver's shared level cell is replaced although it was already set (copies of the AtomicLevel stop following it): "+sq)
+		case early:
+			bad = append(bad, "the level is overwritten with something other than the successfully parsed level: "+sq)
+		case failed && (stores > 0 || last != "ret-err"):
+			bad = append(bad, "a rejected text still changes the level or is not reported: "+sq)
+		case parsed && !failed && (stores != 1 || last != "ret-nil"):
+			bad = append(bad, "an accepted text does not install the parsed level exactly once and return nil: "+sq)
+		case !parsed && !failed && last == "ret-nil":
+			bad = append(bad, "returns nil without parsing: "+sq)
+		}
+		if parsed && !failed && !early {
+			nOK++
+		}
 	}
-	if n == 0 {
-		c.Bad(rule, name, "set", fn.Pos(), "no SetLevel call found")
-	}
+	c.Check(len(bad) == 0 && nOK > 0, rule, name, "set-only-after-successful-parse", fn.Pos(), "over %d paths: the level is stored only after the parser succeeded, with exactly the parsed level, once, and nil is returned; a failed parse stores nothing and returns the error %v", len(seqs), bad)
 }
 
 // c20ParseOK: the control atom "the level parser returned a nil error".
